@@ -50,6 +50,8 @@ def check(run):
     total = equal = 0
     for (key, arch, xlen, fs) in gas.targets():
         picks = gas.standard_picks(fs) + gas.slot_sweep_picks(fs, full_limit=256 if thorough else 64)
+        if thorough:
+            picks += gas.pair_sweep_picks(fs)
         cases = gas.run_cases(arch, xlen, fs, picks)
         st = {"forms": len(fs), "instantiations": len(cases), "compiled_by_dynasm": 0, "assembled_by_llvm": 0, "equal": 0, "legitimate_alternative": {}, "differ": 0,
               "llvm_unknown_mnemonic": 0, "llvm_refuses_dynasm_accepts": 0, "undecodable": 0, "forms_with_equal_comparison": 0}
@@ -137,7 +139,7 @@ def check(run):
     # x86/x64: every table entry instantiated (every register of the class in every slot, fixed memory shapes, boundary immediates),
     # compiled by the plugin, the bytes DISASSEMBLED by llvm-mc and compared operand by operand (lib/x64sweep.py)
     import x64sweep
-    rep = x64sweep.run(limit=None)
+    rep = x64sweep.run(limit=None, pairwise=thorough)
     c = rep["counts"]
     stats["x64"] = {k: c[k] for k in ("entries", "instantiations", "accepted", "decoded", "fully_equal", "mnemonic_alias_equal", "undecodable", "entries_never_taken") if k in c}
     stats["x64"]["undecodable_per_feature"] = rep.get("undecodable_per_feature")
